@@ -24,7 +24,8 @@ ASSUMPTIONS = [
     "natural mode is judged only for elements that have a natural abundance (the code raises otherwise, as the property presupposes the mean exists)",
     "isotope 0 / leading zeros / charge-only suffix on D,T / underscores in numbers are outside the domain (model mirrors the code where it can; only impl-vs-model is compared there)",
     "whitespace = ASCII blanks; floats compared with relative tolerance 1e-9 to exact rational arithmetic over the table values",
-    "the regex -> scanner step of preprocess is validated by correspondence on every run, not proved",
+    "the regex -> scanner step of preprocess is validated by correspondence on every run, not proved; differences between code and model on malformed / mutated / random text (outside the documented notation) are counted and noted, they never fail the check",
+    "relative tolerance 1e-9 everywhere: all compared quantities are sums/products/quotients of positive terms (no cancellation); exact zeros (e of a bare nucleus, N of H{1}) are exact in both",
 ]
 EXPLANATION = ("theorems: Composite add/_add/_multiply evaluate every formula AST to exactly its expansion (all ASTs, any semiring); "
                "get_isotope returns N=A-Z, e=Z+q, mass=M+q*m_e for every well-formed table (well-formedness of the regenerated table by "
@@ -190,6 +191,22 @@ def gen_term(rng, tbl, natural, depth, pool, inside=False):
     return f
 
 
+def deep_ast(rng, tbl, natural, d, pool):
+    """a narrow formula of nesting depth exactly d (every level: one or two items around a counted group)"""
+    f = gen_item(rng, tbl, natural, 0, pool)
+    for level in range(d):
+        g = ["group", f if rng.random() < 0.4 else ["seq", rng.choice([0, 0, 1]), gen_item(rng, tbl, natural, 0, pool), f]]
+        if rng.random() < 0.7:
+            g = ["count", g, rng.choice([2, 3, 4, 12])]
+        f = g if rng.random() < 0.4 else ["seq", rng.choice([0, 0, 1]), g, gen_item(rng, tbl, natural, 0, pool)] \
+            if rng.random() < 0.6 else ["seq", 0, gen_item(rng, tbl, natural, 0, pool), g]
+    return f
+
+
+def size_of(f):
+    return 1 + sum(size_of(x) for x in f[1:] if isinstance(x, list))
+
+
 def depth_of(f):
     if f[0] == "sp":
         return 0
@@ -225,6 +242,13 @@ def mutate(rng, s):
 
 
 # ------------------------------------------------------------------ streams
+def out_of_domain(ctx, stream, text, detail):
+    """impl != model on an input OUTSIDE the property's domain (malformed / random text): recorded, never a failure"""
+    ctx.count("out_of_domain_difference.%s" % stream)
+    if sum(1 for x in ctx.notes if x.startswith("out-of-domain")) < 5:
+        ctx.notes.append("out-of-domain impl/model difference [%s] %r: %s" % (stream, text, detail[:200]))
+
+
 def element_stream(ctx, tbl, n_random):
     cases = []
     for sym in tbl.order:
@@ -271,8 +295,10 @@ def element_stream(ctx, tbl, n_random):
             isinstance(imp, dict) and isinstance(m, dict) and imp["element"] == m["element"] and
             imp["ionisation"] == m["ionisation"] and
             all(close(imp[k], uf(m[k])) for k in ("mass", "Z", "N", "e", "isotope")))
-        if not same:
+        if not same and judged:
             ctx.disagreement("element", {"s": s, "natural": nat}, "impl %s model %s" % (imp, json.dumps(m)[:300]))
+        elif not same:
+            out_of_domain(ctx, "element", s, "impl %s model %s" % (imp, json.dumps(m)[:120]))
 
 
 def judge_formula(ctx, tbl, ast, natural, r, report=True):
@@ -366,7 +392,14 @@ def formula_stream(ctx, tbl, count, maxdepth):
     for _ in range(count):
         natural = ctx.rng.random() < 0.5
         d = ctx.rng.randint(0, maxdepth)
-        cases.append((gen_term(ctx.rng, tbl, natural, d, []), natural))
+        ast = gen_term(ctx.rng, tbl, natural, d, [])
+        while ctx.tier != "thorough" and size_of(ast) > 70:      # quick tier: keep every depth, skip the giants
+            ast = gen_term(ctx.rng, tbl, natural, d, [])
+        cases.append((ast, natural))
+    for d in range(3, maxdepth + 1):          # every nesting depth is represented in every run
+        for _ in range(6):
+            natural = ctx.rng.random() < 0.5
+            cases.append((deep_ast(ctx.rng, tbl, natural, d, []), natural))
     res = ctx.driver.ask_many([formula_request(a, n) for a, n in cases])
     texts = []
     for (ast, natural), r in zip(cases, res):
@@ -387,21 +420,28 @@ def formula_stream(ctx, tbl, count, maxdepth):
 
 
 def preprocess_stream(ctx, texts, n_random):
-    strs = list(texts)
-    strs += ["C2B4", "C2 B4", "C{13+2}B{11}H{-}2", "(CB2)2", "((CB2)2Al)3", "C{13+2}(B{11}Li2)4 H{-}2 O{+3}",
-             "(C + B * 2) * 2", "C{13+2} + (B{11} + Li * 2)4", "(OH)2(CH3)3", "Cu(NO3)2(H2O)3", "(OH)2 (CH3)3", "", "()", "(", ")",
-             "A)2(", "COHNaCl", "[p]2[n]", "[p] [e]3", "a1B2", "H 2", "(A) 2", "A(B)2 (C)3 D", ")2 3(", "A  (  B  )  2"]
+    """scanners vs the real regexes. In-domain texts (rendered formulas, the documented examples) tie the model:
+    a difference there is a disagreement. Mutated and random strings are outside the domain: a difference is noted only."""
+    documented = ["C2B4", "C2 B4", "C{13+2}B{11}H{-}2", "(CB2)2", "((CB2)2Al)3", "C{13+2}(B{11}Li2)4 H{-}2 O{+3}",
+                  "(C + B * 2) * 2", "C{13+2} + (B{11} + Li * 2)4", "(OH)2(CH3)3", "Cu(NO3)2(H2O)3", "(OH)2 (CH3)3",
+                  "COHNaCl", "[p]2[n]", "[p] [e]3"]
+    indomain = list(texts) + documented
+    outside = ["", "()", "(", ")", "A)2(", "a1B2", "H 2", "(A) 2", "A(B)2 (C)3 D", ")2 3(", "A  (  B  )  2"]
     for t in texts[: max(50, n_random)]:
-        strs.append(mutate(ctx.rng, t))
+        outside.append(mutate(ctx.rng, t))
     for _ in range(n_random):
-        strs.append("".join(ctx.rng.choice(ALPHABET) for _ in range(ctx.rng.randint(1, 14))))
+        outside.append("".join(ctx.rng.choice(ALPHABET) for _ in range(ctx.rng.randint(1, 14))))
+    strs = indomain + outside
     res = ctx.driver.ask_many([{"k": "preprocess", "s": s} for s in strs])
-    for s, r in zip(strs, res):
+    for k, (s, r) in enumerate(zip(strs, res)):
         imp = impl_preprocess(s)
         ctx.case(["preprocess", s], False)
-        ctx.count("preprocess.strings")
+        ctx.count("preprocess.%s" % ("in-domain" if k < len(indomain) else "out-of-domain"))
         if "ok" not in r or imp != r["ok"][3]:
-            ctx.disagreement("preprocess", {"s": s}, "regex %r, scanners %r" % (imp, r.get("ok", r)))
+            if k < len(indomain):
+                ctx.disagreement("preprocess", {"s": s}, "regex %r, scanners %r" % (imp, r.get("ok", r)))
+            else:
+                out_of_domain(ctx, "preprocess", s, "regex %r, scanners %r" % (imp, r.get("ok", r)))
 
 
 def malformed_stream(ctx, texts, n):
@@ -420,7 +460,7 @@ def malformed_stream(ctx, texts, n):
             mc = [[c["expr"], uf(c["count"])] for c in m["components"]]
             same = [k for k, _ in mc] == [k for k, _ in imp["components"]] and all(close(a[1], b[1]) for a, b in zip(imp["components"], mc))
         if not same:
-            ctx.disagreement("malformed", {"s": s, "natural": False}, "impl %s model %s" % (imp if imp == "err" else imp["components"], json.dumps(m)[:200]))
+            out_of_domain(ctx, "malformed", s, "impl %s model %s" % (imp if imp == "err" else imp["components"], json.dumps(m)[:200]))
 
 
 def addmul_stream(ctx, tbl, n):
@@ -497,7 +537,20 @@ def history_steps(sym, other, natural, k1, k2):
         ("chained-sum", ["plus", 7, 3], lambda L: L.append(L[7] + L[3])),
         ("product-of-sum", ["mul", 8, one(k1 + 0.5)], lambda L: L.append(L[8] * (k1 + 0.5))),
         ("add-after-chain", ["add", 8, "Xe", one(k2)], lambda L: L[8].add("Xe", k2)),
+        # augmented assignment is the same addition / multiplication: a new value, operands untouched
+        ("iadd", ["plus", 1, 0], lambda L: L.append(iadd(L[1], L[0]))),
+        ("imul", ["mul", 1, one(k2)], lambda L: L.append(imul(L[1], k2))),
     ]
+
+
+def iadd(a, b):
+    a += b
+    return a
+
+
+def imul(a, k):
+    a *= k
+    return a
 
 
 def element_ops(ctx, sym, natural, k1, k2):
@@ -505,12 +558,15 @@ def element_ops(ctx, sym, natural, k1, k2):
     from scinumtools.materials import Element
     try:
         e1, e2 = Element(sym, k1, natural=natural), Element(sym, k2, natural=natural)
-        got = [float((e1 + e2).proportion), float((e1 * 3).proportion), float(e1.proportion), float(e2.proportion)]
+        e3 = iadd(Element(sym, k1, natural=natural), e2)
+        e4 = imul(Element(sym, k1, natural=natural), 3)
+        got = [float((e1 + e2).proportion), float((e1 * 3).proportion), float(e1.proportion), float(e2.proportion),
+               float(e3.proportion), float(e4.proportion)]
     except Exception as e:  # noqa
         ctx.violation("history:element-error", "Element(%r,%r) + Element(%r,%r) raises %r" % (sym, k1, sym, k2, e),
                       {"stream": "element-ops", "sym": sym, "natural": natural})
         return
-    want = [float(k1 + k2), float(3 * k1), float(k1), float(k2)]
+    want = [float(k1 + k2), float(3 * k1), float(k1), float(k2), float(k1 + k2), float(3 * k1)]
     if any(not close(a, b) for a, b in zip(got, want)):
         ctx.violation("history:element-ops", "Element(%r,%r)+Element(%r,%r), *3 and the operands have counts %s, expected %s" %
                       (sym, k1, sym, k2, got, want), {"stream": "element-ops", "sym": sym, "natural": natural, "k1": k1, "k2": k2})
@@ -549,7 +605,8 @@ def history_stream(ctx, tbl, n):
                     if not same_counts(got, want):
                         bad = (idx, got, {k: float(v) for k, v in want.items()})
                         break
-                    if got:
+                    touched = {len(live) - 1} | ({op[1]} if op[0] == "add" else set())
+                    if got and idx in touched:
                         # the totals the object carries / reports = count-weighted sums of its per-species data
                         tg, tw, cnt = totals_of(obj)
                         if not same_counts(cnt, want):
@@ -581,10 +638,10 @@ def correspond(ctx: Ctx):
     thorough = ctx.tier == "thorough"
     tbl = Table()
     element_stream(ctx, tbl, 600 if thorough else 120)
-    history_stream(ctx, tbl, 150 if thorough else 40)     # before the formulas: leaked state would show there too
-    texts = formula_stream(ctx, tbl, 3000 if thorough else 330, 10 if thorough else 5)
+    history_stream(ctx, tbl, 150 if thorough else 30)     # before the formulas: leaked state would show there too
+    texts = formula_stream(ctx, tbl, 3000 if thorough else 240, 10 if thorough else 5)
     preprocess_stream(ctx, texts, 3000 if thorough else 400)
-    malformed_stream(ctx, texts, 600 if thorough else 120)
+    malformed_stream(ctx, texts, 600 if thorough else 80)
     addmul_stream(ctx, tbl, 150 if thorough else 25)
 
 
